@@ -443,12 +443,14 @@ def sweeps(tier, rng):
             conts = []
             for _ in range(rng.randint(1, 3)):
                 m = rng.randint(2, 6); pts = []
-                offs = [(2 * rng.randint(-20, 20), 2 * rng.randint(-20, 20)) for _ in range(m)]
+                par = rng.choice([2, 2, 1])                                     # odd coordinate sums too: the "midpoint" then lies between grid points
+                offs = [(par * rng.randint(-20, 20), par * rng.randint(-20, 20)) for _ in range(m)]
                 for j, o in enumerate(offs):
                     pts.append((o, None))
                     nxt = offs[(j + 1) % m]
                     k = rng.below(4)
-                    if k == 0: pts.append((((o[0] + nxt[0]) // 2, (o[1] + nxt[1]) // 2), "qcurve"))      # explicit implied point
+                    # explicit implied point; with an odd sum the nearest grid point ABOVE the midpoint — not implied, it must stay
+                    if k == 0: pts.append((((o[0] + nxt[0] + 1) // 2, (o[1] + nxt[1] + 1) // 2), "qcurve"))
                     elif k == 1: pts.append(((rng.randint(-40, 40), rng.randint(-40, 40)), "qcurve"))
                     elif k == 2:
                         pts.append(((rng.randint(-40, 40), rng.randint(-40, 40)), "qcurve")); pts.append(((rng.randint(-40, 40), rng.randint(-40, 40)), "line"))
@@ -627,6 +629,35 @@ def sweeps(tier, rng):
                         bad = "%s decomposition raised %r" % (proto, e); break
                 if bad: break
             yield (("components", t1, t2, nested), bad)
+            # the glyph builders decompose components themselves when the glyph also has contours (or a scale is out of the F2Dot14
+            # range): a component that is itself a composite must come out in full, through both builders
+            if i % 3 == 0 and all(float(v).is_integer() for op, a in base for p in a for v in p):
+                def int_t():
+                    k_ = rng.below(5)
+                    return [(1, 0, 0, 1, rng.randint(-50, 50), rng.randint(-50, 50)), (-1, 0, 0, 1, rng.randint(-50, 50), 0), (0, 1, 1, 0, 0, 0),
+                            (0, -1, 1, 0, 5, 5), (3, 0, 0, 3, 0, 0)][k_]
+                u0, u1, u2 = int_t(), int_t(), int_t(); nested2 = rng.chance(70)
+                gs2 = {"base": Simple(base), "mid": Comp([("base", u2)]), "top": Comp([("mid", u1)] if nested2 else [("base", u1)])}
+                tot = Transform(*u0).transform(Transform(*u1))
+                if nested2: tot = tot.transform(Transform(*u2))
+                own = [("moveTo", ((0.0, 0.0),)), ("lineTo", ((7.0, 0.0),)), ("lineTo", ((0.0, 9.0),)), ("closePath", ())]
+                exp2 = RecordingPen(); _record(own, exp2); _record(base, TransformPen(exp2, tot))
+                want_pts = sorted((round(p[0]), round(p[1])) for op, a in exp2.value for p in a if p is not None)
+                bad2 = None
+                for which in ("TTGlyphPen", "TTGlyphPointPen"):
+                    try:
+                        if which == "TTGlyphPen":
+                            pen2 = TTGlyphPen(gs2); _record(own, pen2); pen2.addComponent("top", u0); g2 = pen2.glyph()
+                        else:
+                            pen2 = TTGlyphPointPen(gs2); _record(own, SegmentToPointPen(pen2, guessSmooth=False)); pen2.addComponent("top", u0); g2 = pen2.glyph()
+                        if g2.isComposite(): bad2 = "%s kept a component although the glyph has contours of its own" % which; break
+                        r2 = RecordingPen(); g2.draw(r2, None)
+                        got_pts = sorted((round(p[0]), round(p[1])) for op, a in r2.value for p in a if p is not None)
+                        if set(want_pts) - set(got_pts):
+                            bad2 = "%s: decomposing %s component %r / %r / %r lost points of the outline: expected %r, built %r" % (which, "a nested" if nested2 else "a", u0, u1, u2, want_pts[:12], got_pts[:12]); break
+                    except Exception as e:
+                        bad2 = "%s with components raised %r" % (which, e); break
+                yield (("builder-components", u0, u1, u2, nested2), bad2)
     return [Sweep("pen-adapters", run_adapters), Sweep("superbezier", run_superbezier), Sweep("glyph-builders", run_glyph_builders), Sweep("components", run_components)]
 
 class _Flat(BasePen):
